@@ -98,6 +98,9 @@ CORE = [
     {'P': lambda db: [(a, c) for (a,) in db['A'] for (a2, b) in db['Q'] if a2 == a
                       for (b2, c) in db['R'] if b2 == b for (c2,) in db['A'] if c2 == c]},
     max_rows={'quick': 2, 'thorough': 2}),
+  # two rules of one predicate listing the same named arguments in different orders (known finding)
+  S('named_args_reordered', 'P(a: x, b: y) :- Q(x, y);\nP(b: x, a: y) :- Q(x, y);', {'Q': 2},
+    {'P': lambda db: [(x, y) for (x, y) in db['Q']] + [(y, x) for (x, y) in db['Q']]}, cols={'P': ['a', 'b']}),
   # degenerate shapes: no table at all, constants only, single-fact predicates that get injected
   S('tableless', 'Threshold(5);\nSmall(x) :- Threshold(x), x < 3;\nBig(x) :- Threshold(x), x > 3;\n'
     'C(y) :- y == 2 + 2, y > 10;\nC2(y) :- y == 2 + 2, y < 10;\n'
@@ -179,6 +182,28 @@ AGG = [
                                               for (y, x3) in db['Q'] if x3 == x]), sum))
                        for (x,) in db['A']]},
     tags=('C02',), max_rows={'quick': 2, 'thorough': 2}),
+  # a combine inside an injected predicate and a combine of the caller use the same local name,
+  # and the injected value is used inside the caller's combine
+  S('inject_combine_same_local',
+    'PerKey(k, a) :- A(k), a == Sum{y :- Q(k, y)};\nW(k, b) :- PerKey(k, a), b == Sum{y :- R(a, y)};',
+    {'A': 1, 'Q': 2, 'R': 2},
+    {'W': lambda db: [(k, _none_if_empty([y for (a2, y) in db['R']
+                                           if a2 == _sum([y2 for (k2, y2) in db['Q'] if k2 == k])], sum))
+                      for (k,) in db['A']]},
+    tags=('C02', 'C07', 'C08'), max_rows={'quick': 2, 'thorough': 2}),
+  # a distinct (deduplicating) predicate read by a multiplicity-sensitive distinct caller
+  S('distinct_callee_agg_caller', 'D(x) distinct :- Q(x, y);\nT(total? += x, biggest? Max= x) distinct :- D(x);\n'
+    'N() += 1 :- D(x);', {'Q': 2},
+    {'T': lambda db: [(sum({x for (x, y) in db['Q']}), max({x for (x, y) in db['Q']}))] if db['Q'] else [(None, None)],
+     'N': lambda db: [(len({x for (x, y) in db['Q']}) or None,)]},
+    tags=('C02', 'C08')),
+  # an injectible predicate with a combine inside a combine whose innermost local variable has the
+  # same name as a variable of the caller
+  S('inject_nested_combine_capture',
+    'Free(x, n) :- A(x), n == Sum{1 :- Q(x, z), ~R(z, y)};\nW(y, n) :- Free(y, n);\nW2(a, n) :- Free(a, n);',
+    {'A': 1, 'Q': 2, 'R': 2},
+    {'Free': lambda db: _free(db), 'W': lambda db: _free(db), 'W2': lambda db: _free(db)},
+    tags=('C02', 'C08'), max_rows={'quick': 2, 'thorough': 2}),
   S('nested_combine', 'P(x, t) :- A(x), t == Sum{Max{z :- Q(y, z)} :- Q(x, y)};', {'Q': 2, 'A': 1},
     {'P': lambda db: [(x, _none_if_empty(nn([_none_if_empty([z for (y2, z) in db['Q'] if y2 == y], max)
                                              for (x2, y) in db['Q'] if x2 == x]), sum))
@@ -219,6 +244,11 @@ def _groups(rows, key, val):
   for r in rows:
     g.setdefault(key(r), []).append(val(r))
   return list(g.items())
+
+
+def _free(db):
+  return [(x, _none_if_empty([1 for (x2, z) in db['Q'] if x2 == x and not [1 for (z2, y) in db['R'] if z2 == z]], sum))
+          for (x,) in db['A']]
 
 
 def _sum(vs):
